@@ -80,7 +80,7 @@ _WIDE_SIGMA = {(16, 16): 1.3, (12, 16): 1.5, (10, 14): 1.3, (9, 9): 1.5, (8, 12)
 
 
 def _kernel(rng, Q, H, W, idx):
-    kind = ["random", "single_tap", "gaussian", "motion", "full_size", "even", "one", "asym_small", "int_weights", "int_weights_asym", "wide_gaussian", "even_flip_symmetric"][idx % 12]
+    kind = ["random", "single_tap", "gaussian", "motion", "full_size", "even", "one", "asym_small", "int_weights", "int_weights_asym", "wide_gaussian", "even_flip_symmetric", "graded_taps", "long_tail_gaussian"][idx % 14]
     if kind == "random":
         kH, kW = int(rng.integers(1, H + 1)), int(rng.integers(1, W + 1))
         psf = rng.random((kH, kW))
@@ -118,6 +118,15 @@ def _kernel(rng, Q, H, W, idx):
         if (H, W) in _WIDE_SIGMA:        # sizes for which a sigma with kappa(A) in 1e6 .. 1e8 is tabulated
             rad, sg = (min(H, W) - 1) // 2, _WIDE_SIGMA[(H, W)]
         psf = Q.build_psf_gaussian(rad, sg)
+    elif kind == "graded_taps":
+        # taps on scales 1 .. 1e-12 of the peak: the small ones are part of the operator (a truncated kernel is another operator)
+        kH, kW = int(rng.integers(1, min(H, 5) + 1)), int(rng.integers(1, min(W, 5) + 1))
+        psf = (0.2 + rng.random((kH, kW))) * 10.0 ** rng.choice([0.0, 0.0, -3.0, -7.0, -9.0, -12.0], size=(kH, kW))
+        psf[kH // 2, kW // 2] = 1.0
+    elif kind == "long_tail_gaussian":
+        # Gaussian sampled out to 4 .. 5 sigma (corner taps 1e-7 .. 1e-11 of the peak), as large as the image allows
+        rad = max(0, min(4, (min(H, W) - 1) // 2))
+        psf = Q.build_psf_gaussian(rad, float(rng.choice([1.0, 0.8, 0.9])) if rad >= 3 else 0.5)
     elif kind == "motion":
         L = int(rng.integers(1, 6))
         while (L if L % 2 else L + 1) > min(H, W):
